@@ -590,7 +590,12 @@ impl Monitor for C08 {
                 o.max_extent = 8;
                 o.acts = ALL_ACTS.to_vec();
                 let mut cfg = random_net(&mut rng, &o);
-                if idx % 4 == 3 && cfg.layers.len() >= 2 {
+                if idx % 8 == 7 && cfg.layers.len() >= 2 {
+                    // a block with internal skips (input / output skips, any accumulation)
+                    if crate::gen::insert_block_skips(&mut rng, &mut cfg, 3) {
+                        out.count("sequences_with_a_feedback_block_with_internal_skips", 1);
+                    }
+                } else if idx % 4 == 3 && cfg.layers.len() >= 2 {
                     insert_block(&mut rng, &mut cfg, 3);
                 }
                 out.key = cfg.describe();
